@@ -136,7 +136,18 @@ TRef == /\ l <= Len(T) /\ Ev.ev = "ref"
         /\ (Prop = "C03" => RefOK(Ev))
         /\ l' = l + 1 /\ UNCHANGED <<rpvars, tid>>
 
+\* Output-side cross-check, independent of the hook: every node path found in the emitted expressions and texts,
+\* evaluated from the node it belongs to, reaches an existing node, and -- when that node is a user row whose cells carry
+\* ${references} -- a node the row actually referenced.
+NodeAt(p) == {i \in 1..Len(nodes) : nodes[i].p = p}
+OutRefOK(o) ==
+  LET tgt == Resolve(o.ctx, o.e)
+      C == NodeAt(o.ctx)
+  IN /\ (o.e.abs \/ o.e.up <= Len(o.ctx))
+     /\ NodeAt(tgt) # {}
+     /\ \A i \in C : (nodes[i].gen \in {"", "note"} /\ nodes[i].refs # <<>>) => Last(tgt) \in ToSet(nodes[i].refs)
 C03Env == /\ Check("no_residual_reference", Ev.residual = 0)
+          /\ Check("emitted_paths_reach_referenced_nodes", \A k \in 1..Len(Ev.outrefs) : OutRefOK(Ev.outrefs[k]))
           /\ Check("every_source_reference_substituted",
                    \A i \in 1..Len(nodes) : \A k \in 1..Len(nodes[i].refs) :
                       \E j \in 2..(l - 1) : T[j].ev = "ref" /\ T[j].name = nodes[i].refs[k])
